@@ -115,7 +115,7 @@ func c02Gen(rt *rapid.T) c02Case {
 	}
 	for si := 0; si < nseg; si++ {
 		cfg := gen.HistCfg{
-			MinStmts: 2, MaxStmts: 22, MaxTables: 3, MaxCols: 4, Direct: true,
+			MinStmts: 2, MaxStmts: 22, MaxTables: 3, MaxCols: 4, Direct: true, ReUse: true,
 			RowCounts: []int{1, 1, 1, 2, 3, 4, 8, 9, 10, 17},
 			Small:     rapid.IntRange(0, 2).Draw(rt, "small") > 0,
 		}
